@@ -146,7 +146,7 @@ def obligations(tier):
     for m in ('EXTERNAL', 'ANONYMOUS'):
         obs.append(Ob('mech:' + m, 'mech', {'mech': m}, timeout=300, path_timeout=30, twin=True, functions=FUNCS[9:13],
                       bounds='credentials present/absent, step count symbolic'))
-    for shape in range(6):
+    for shape in range(9):
         obs.append(Ob('mech:COOKIE:shape%d' % shape, 'mech', {'mech': 'COOKIE', 'shape': shape}, timeout=300, path_timeout=30,
                       twin=True, functions=FUNCS[9:13], bounds='response tokens symbolic (digits), str/bytes, right/wrong hash'))
     for m in ('EXTERNAL', 'ANONYMOUS', 'DBUS_COOKIE_SHA1'):
@@ -474,13 +474,22 @@ def _build_mech(name, fixed_shape=None):
         def digest(self):
             return b'<' + self.data + b'>'
 
-    SHAPES = ['two', 'one', 'three', 'empty', 'blank', 'none']
+    SHAPES = ['two', 'one', 'three', 'empty', 'blank', 'none', 'prefix', 'extended', 'flip']
 
-    def h(c0, r0, as_str, right, shape):
+    def h(c0, r0, as_str, right, shape, cut):
         for b in (c0, r0):
             assume(48 <= b <= 57)      # tokens of ASCII digits (no whitespace, hex-safe)
         assume(shape == fixed_shape)
         kind = SHAPES[fixed_shape]
+        assume(0 <= cut < 28)           # the hash token has 28 characters here
+        if kind not in ('prefix', 'flip'):
+            assume(cut == 0)
+        cut = decode_choice(cut, [28])[0]
+        if kind in ('prefix', 'flip', 'extended'):
+            assume(c0 == 48)            # concrete challenge: the variation is in the hash token
+            c0 = 48
+            if kind == 'prefix':
+                assume(r0 == 48)
         with notrace():
             m = authentication.BusCookieAuthenticator()
             m.challenge_str = b'CH'
@@ -494,7 +503,15 @@ def _build_mech(name, fixed_shape=None):
             client_chal = bytes([c0, 55])
             good = binascii.hexlify(b'<' + b'CH:' + client_chal + b':COOKIE>')
             resp_hash = good if right else bytes([r0, 49])
-            if kind == 'two':
+            if kind == 'prefix':        # a proper prefix of the right hash (an empty one leaves a single token)
+                response = client_chal + b' ' + good[:cut]
+            elif kind == 'extended':    # the right hash followed by one more character
+                response = client_chal + b' ' + good + bytes([r0])
+            elif kind == 'flip':        # the right hash with one character changed
+                pos = [0, 1, 13, 14, 26, 27][cut % 6]
+                assume(cut < 6 and good[pos] != r0)
+                response = client_chal + b' ' + good[:pos] + bytes([r0]) + good[pos + 1:]
+            elif kind == 'two':
                 response = client_chal + b' ' + resp_hash
             elif kind == 'one':
                 response = resp_hash
@@ -520,9 +537,15 @@ def _build_mech(name, fixed_shape=None):
             check(len(deleted) >= 1, 'cookie not deleted after the attempt')
         reached()
     h.__name__ = 'mech_cookie'
-    return Spec(h, [('c0', int), ('r0', int), ('as_str', bool), ('right', bool), ('shape', int)],
-                witnesses=[(48, 50, False, True, fixed_shape), (48, 50, True, True, fixed_shape),
-                           (57, 48, True, False, fixed_shape), (48, 50, False, False, fixed_shape)])
+    fs = fixed_shape
+    wit = {'prefix': [(48, 48, False, True, fs, 27), (48, 48, True, True, fs, 8), (48, 48, False, False, fs, 1),
+                      (48, 48, True, False, fs, 0)],
+           'flip': [(48, 50, False, True, fs, 5), (48, 57, True, True, fs, 2), (48, 49, True, False, fs, 0)],
+           'extended': [(48, 50, False, True, fs, 0), (48, 57, True, False, fs, 0)]}.get(
+        SHAPES[fs], [(48, 50, False, True, fs, 0), (48, 50, True, True, fs, 0), (57, 48, True, False, fs, 0),
+                     (48, 50, False, False, fs, 0)])
+    return Spec(h, [('c0', int), ('r0', int), ('as_str', bool), ('right', bool), ('shape', int), ('cut', int)],
+                witnesses=wit)
 
 
 def _build_e2e(mech):
